@@ -276,7 +276,7 @@ pub fn gen_doc_table(rng: &mut Rng, u: &[MVer]) -> (Vec<DocEp>, bool) {
         n: 2 + rng.usize(12),
     };
     let table = gen_table(rng, &cfg, u);
-    let tagpool = ["t1", "t2", "alpha", "zz"];
+    let tagpool = ["t1", "t2", "alpha", "zz", "Alpha", "ALPHA", "T2"];
     let eps = table
         .into_iter()
         .map(|mut ep| {
